@@ -1,1 +1,803 @@
-//! C20: not implemented yet.
+//! C20 — Rate limiting answers to the client's own request rate.
+//!
+//! Part A (E-SEQ on the private `TimestampedCache`, probe `server::verif_probe::gf`):
+//!   every sequence of (address in {a,b,c}, delta-t in {0, 9, 10, 11}) up to length L,
+//!   for cache sizes 0..3, cutoffs {0, 10} and EVERY way the three addresses can share
+//!   slots that the size admits (set partitions with <= size blocks). The cache hashes
+//!   with a per-instance `RandomState`; the harness owns that by choosing, for each cache
+//!   instance, concrete addresses whose OBSERVED slot realises the wanted sharing pattern,
+//!   and the reference is parametrised by the observed slot of each address.
+//!   The sequence tree is walked depth first on forks of the real cache (same hash state).
+//!
+//! Part B (E-IN/E-SEQ on `Server::handle`): every sequence up to length 3 (quick) / 4
+//!   (thorough) over (client in {3 listed-OK clients, one deny-listed, one not on the allow
+//!   list} x datagram in {valid plain, valid NTS, undecryptable NTS, non-client mode,
+//!   garbage}) for cache sizes {0,1,2,32} (thorough: + 3), cutoffs {0, 1 h}, every slot sharing pattern of
+//!   the three passing clients, both list actions. `intended_action` reads
+//!   `std::time::Instant::now`: real elapsed time between two calls is microseconds, i.e.
+//!   unambiguously ">= 0" and "< 1 h". The deny-listed and the unlisted client are chosen
+//!   to hash into the slot of the first passing client, so a limiter consulted before the
+//!   lists would be noticed.
+//!
+//! Reference (from the statement), three valued:
+//!   must-limit  : same address passed the lists less than the cutoff ago and no other
+//!                 (list-passing) address used the same slot in between  -> no answer
+//!   must-allow  : no own previous list-passing request within the cutoff (or size 0)
+//!   unspecified : own previous request within the cutoff but another address used the
+//!                 slot in between (the statement allows either; what happens is counted)
+use std::collections::BTreeMap;
+use std::net::{IpAddr, Ipv4Addr, Ipv6Addr};
+use std::time::{Duration, Instant};
+
+use super::c15::{self, Act, Ans, Dgram, Keys, Policy};
+use super::common::{self, Ctx};
+use crate::server::verif_probe::gf::{Cache, server_slot};
+use crate::server::{ServerReason, ServerResponse};
+
+const DELTAS: [u64; 4] = [0, 9, 10, 11];
+const NADDR: usize = 3;
+const NSYM: usize = NADDR * DELTAS.len();
+
+#[derive(Clone, Copy, PartialEq, Eq, Debug)]
+enum Want {
+    MustLimit,
+    MustAllow,
+    Unspecified,
+}
+
+/// All restricted-growth strings of length n with at most `max_blocks` blocks: the set
+/// partitions of n addresses into slots.
+fn partitions(n: usize, max_blocks: usize) -> Vec<Vec<usize>> {
+    fn rec(n: usize, max_blocks: usize, cur: &mut Vec<usize>, used: usize, out: &mut Vec<Vec<usize>>) {
+        if cur.len() == n {
+            out.push(cur.clone());
+            return;
+        }
+        for b in 0..=used.min(max_blocks.saturating_sub(1)) {
+            cur.push(b);
+            rec(n, max_blocks, cur, used.max(b + 1), out);
+            cur.pop();
+        }
+    }
+    let mut out = Vec::new();
+    if max_blocks == 0 {
+        return vec![vec![0; n]]; // size 0: no slots at all; pattern is irrelevant
+    }
+    rec(n, max_blocks, &mut Vec::new(), 0, &mut out);
+    out
+}
+
+fn pool_addr(i: u32) -> IpAddr {
+    if i % 2 == 0 {
+        IpAddr::V4(Ipv4Addr::new(10, 9, (i >> 9) as u8, (i >> 1) as u8))
+    } else {
+        IpAddr::V6(Ipv6Addr::new(0x2001, 0xdb8, 9, 0, 0, 0, (i >> 17) as u16, (i >> 1) as u16))
+    }
+}
+
+/// Choose addresses from `candidates` so that address i lands in the slot of block
+/// `pattern[i]` (distinct blocks -> distinct slots), by looking at the observed slots.
+fn realise(
+    pattern: &[usize],
+    slot_of: impl Fn(&IpAddr) -> Option<usize>,
+    candidates: impl Iterator<Item = IpAddr>,
+) -> Option<Vec<IpAddr>> {
+    let mut by_slot: BTreeMap<usize, Vec<IpAddr>> = BTreeMap::new();
+    let nblocks = pattern.iter().copied().max().unwrap_or(0) + 1;
+    let mut need = vec![0usize; nblocks];
+    for b in pattern {
+        need[*b] += 1;
+    }
+    let mut sorted_need = need.clone();
+    sorted_need.sort_unstable_by(|a, b| b.cmp(a));
+    for c in candidates {
+        let Some(s) = slot_of(&c) else {
+            // size 0: any distinct addresses do
+            let v = by_slot.entry(0).or_default();
+            v.push(c);
+            if v.len() == pattern.len() {
+                return Some(v.clone());
+            }
+            continue;
+        };
+        by_slot.entry(s).or_default().push(c);
+        // enough? greedily give the fullest slots to the neediest blocks
+        let mut sizes: Vec<(usize, usize)> = by_slot.iter().map(|(s, v)| (v.len(), *s)).collect();
+        sizes.sort_unstable_by(|a, b| b.cmp(a));
+        if sizes.len() >= nblocks && sorted_need.iter().zip(&sizes).all(|(n, (have, _))| have >= n) {
+            // assign: neediest block -> fullest slot
+            let mut blocks: Vec<usize> = (0..nblocks).collect();
+            blocks.sort_unstable_by(|a, b| need[*b].cmp(&need[*a]));
+            let mut slot_for_block = vec![0usize; nblocks];
+            for (bi, b) in blocks.iter().enumerate() {
+                slot_for_block[*b] = sizes[bi].1;
+            }
+            let mut taken: BTreeMap<usize, usize> = BTreeMap::new();
+            let mut out = Vec::new();
+            for b in pattern {
+                let s = slot_for_block[*b];
+                let k = taken.entry(s).or_insert(0);
+                out.push(by_slot[&s][*k]);
+                *k += 1;
+            }
+            return Some(out);
+        }
+    }
+    None
+}
+
+// ---------------------------------------------------------------------------------
+// Part A: the cache
+// ---------------------------------------------------------------------------------
+
+#[derive(Clone)]
+struct CacheCfg {
+    size: usize,
+    pattern: Vec<usize>,
+    cutoff: u64,
+    unit_ns: u64,
+}
+
+impl CacheCfg {
+    fn trace(&self) -> String {
+        format!(
+            "cache;size={};pat={};cutoff={};unit={}",
+            self.size,
+            self.pattern.iter().map(|b| b.to_string()).collect::<String>(),
+            self.cutoff,
+            self.unit_ns
+        )
+    }
+}
+
+fn sym(s: usize) -> (usize, u64) {
+    (s / DELTAS.len(), DELTAS[s % DELTAS.len()])
+}
+
+fn seq_text(seq: &[usize]) -> String {
+    seq.iter()
+        .map(|s| {
+            let (a, d) = sym(*s);
+            format!("{}+{}", (b'a' + a as u8) as char, d)
+        })
+        .collect::<Vec<_>>()
+        .join(",")
+}
+
+/// Reference verdict for the last element of `hist` ((address index, absolute time)).
+fn want_cache(size: usize, cutoff: u64, slots: &[Option<usize>], hist: &[(usize, u64)]) -> Want {
+    let (a, t) = *hist.last().unwrap();
+    if size == 0 {
+        return Want::MustAllow; // "With the cache size set to zero no client is ever rate-limited"
+    }
+    let before = &hist[..hist.len() - 1];
+    let Some(j) = before.iter().rposition(|(x, _)| *x == a) else {
+        return Want::MustAllow; // no own previous request
+    };
+    let ago = t - before[j].1;
+    if ago >= cutoff {
+        return Want::MustAllow; // own previous request not within the cutoff
+    }
+    let interloper = before[j + 1..].iter().any(|(x, _)| *x != a && slots[*x] == slots[a]);
+    if interloper {
+        Want::Unspecified
+    } else {
+        Want::MustLimit
+    }
+}
+
+struct Walk<'a> {
+    ctx: &'a Ctx,
+    cfg: &'a CacheCfg,
+    addrs: &'a [IpAddr],
+    slots: Vec<Option<usize>>,
+    base: Instant,
+    max_len: usize,
+    // local tallies
+    nodes: u64,
+    calls: u64,
+    tally: [u64; 6],
+    hashes: Vec<u64>,
+    cfg_index: u64,
+}
+
+impl Walk<'_> {
+    fn step(&mut self, cache: &Cache, seq: &mut Vec<usize>, hist: &mut Vec<(usize, u64)>, s: usize, judge: bool) -> Option<Cache> {
+        let (a, d) = sym(s);
+        let t = hist.last().map(|h| h.1).unwrap_or(0) + d;
+        seq.push(s);
+        hist.push((a, t));
+        let mut next = cache.fork();
+        let at = self.base + Duration::from_nanos(t * self.cfg.unit_ns);
+        let cutoff = Duration::from_nanos(self.cfg.cutoff * self.cfg.unit_ns);
+        let addr = self.addrs[a];
+        self.calls += 1;
+        let got = common::catch(|| next.is_allowed(addr, at, cutoff));
+        let got = match got {
+            Ok(g) => g,
+            Err(e) => {
+                self.ctx.violation(
+                    "C20:cache-panic",
+                    format!("TimestampedCache::is_allowed panicked: {e}"),
+                    format!("{};seq={}", self.cfg.trace(), seq_text(seq)),
+                );
+                return None;
+            }
+        };
+        if judge {
+            self.nodes += 1;
+            let want = want_cache(self.cfg.size, self.cfg.cutoff, &self.slots, hist);
+            let idx = match (want, got) {
+                (Want::MustLimit, false) => 0,
+                (Want::MustAllow, true) => 1,
+                (Want::Unspecified, true) => 2,
+                (Want::Unspecified, false) => 3,
+                (Want::MustLimit, true) => 4,
+                (Want::MustAllow, false) => 5,
+            };
+            self.tally[idx] += 1;
+            if idx == 4 {
+                self.ctx.violation(
+                    if self.cfg.size == 0 { "C20:size0-limited" } else { "C20:not-limited-within-cutoff" },
+                    format!(
+                        "size {} cutoff {}: {} repeats within the cutoff with no other address in its slot in between, but is allowed (slots {:?})",
+                        self.cfg.size,
+                        self.cfg.cutoff,
+                        (b'a' + a as u8) as char,
+                        self.slots
+                    ),
+                    format!("{};seq={}", self.cfg.trace(), seq_text(seq)),
+                );
+            }
+            if idx == 5 {
+                self.ctx.violation(
+                    if self.cfg.size == 0 { "C20:size0-limited" } else { "C20:limited-without-recent-own-request" },
+                    format!(
+                        "size {} cutoff {}: {} is limited although it has no own previous request within the cutoff (slots {:?})",
+                        self.cfg.size,
+                        self.cfg.cutoff,
+                        (b'a' + a as u8) as char,
+                        self.slots
+                    ),
+                    format!("{};seq={}", self.cfg.trace(), seq_text(seq)),
+                );
+            }
+            if seq.len() <= 4 && hist[..hist.len() - 1].iter().any(|(x, _)| *x == a) {
+                self.hashes.push(common::hash_of(&("cache", self.cfg_index, &*seq)));
+            }
+        }
+        Some(next)
+    }
+
+    fn dfs(&mut self, cache: &Cache, seq: &mut Vec<usize>, hist: &mut Vec<(usize, u64)>) {
+        if seq.len() >= self.max_len {
+            return;
+        }
+        for s in 0..NSYM {
+            if let Some(next) = self.step(cache, seq, hist, s, true) {
+                self.dfs(&next, seq, hist);
+            }
+            seq.pop();
+            hist.pop();
+        }
+    }
+}
+
+const TALLY_NAMES: [&str; 6] = [
+    "must-limit.limited",
+    "must-allow.allowed",
+    "unspecified.allowed",
+    "unspecified.limited",
+    "must-limit.ALLOWED",
+    "must-allow.LIMITED",
+];
+
+fn cache_cfgs(thorough: bool) -> Vec<CacheCfg> {
+    let mut v = Vec::new();
+    let units: &[u64] = if thorough { &[1_000_000_000, 1] } else { &[1_000_000_000] };
+    for size in 0..=3usize {
+        for pattern in partitions(NADDR, size) {
+            for cutoff in [0u64, 10] {
+                for unit_ns in units {
+                    v.push(CacheCfg {
+                        size,
+                        pattern: pattern.clone(),
+                        cutoff,
+                        unit_ns: *unit_ns,
+                    });
+                }
+            }
+        }
+    }
+    v
+}
+
+/// Run one (cfg, 2-symbol prefix) subtree. `prefix == None`: only the root level nodes
+/// of length 1 (used when max_len < 2).
+fn run_cache_subtree(ctx: &Ctx, cfg: &CacheCfg, cfg_index: u64, p1: usize, p2: usize, max_len: usize, prefix_fill: &str) {
+    let root = Cache::new(cfg.size);
+    let Some(addrs) = realise(&cfg.pattern, |a| root.slot(a), (0..4096).map(pool_addr)) else {
+        ctx.cap_hit(&format!("machinery: could not realise slot pattern {:?} for size {}", cfg.pattern, cfg.size));
+        return;
+    };
+    let slots: Vec<Option<usize>> = addrs.iter().map(|a| root.slot(a)).collect();
+    // the realised pattern must be the wanted one
+    for i in 0..NADDR {
+        for j in 0..NADDR {
+            if cfg.size > 0 && (slots[i] == slots[j]) != (cfg.pattern[i] == cfg.pattern[j]) {
+                ctx.cap_hit("machinery: realised slot pattern differs from the wanted one");
+                return;
+            }
+        }
+    }
+    let mut w = Walk {
+        ctx,
+        cfg,
+        addrs: &addrs,
+        slots,
+        base: Instant::now(),
+        max_len,
+        nodes: 0,
+        calls: 0,
+        tally: [0; 6],
+        hashes: Vec::new(),
+        cfg_index,
+    };
+    let mut seq = Vec::new();
+    let mut hist = Vec::new();
+    // level 1 node is judged by the subtree with p2 == 0 only (so every node is judged once)
+    if let Some(c1) = w.step(&root, &mut seq, &mut hist, p1, p2 == 0) {
+        if max_len >= 2 {
+            if let Some(c2) = w.step(&c1, &mut seq, &mut hist, p2, true) {
+                w.dfs(&c2, &mut seq, &mut hist);
+            }
+        }
+    }
+    ctx.add("cache.sequences", w.nodes);
+    ctx.add("states", w.nodes);
+    ctx.add("evaluations", w.nodes);
+    ctx.add("transitions", w.calls);
+    for (i, n) in w.tally.iter().enumerate() {
+        if *n > 0 {
+            ctx.add(&format!("cache.{}{}", prefix_fill, TALLY_NAMES[i]), *n);
+        }
+    }
+    ctx.distinct_many(w.hashes);
+}
+
+fn part_a(ctx: &Ctx, max_len: usize) {
+    let cfgs = cache_cfgs(!ctx.quick());
+    ctx.set("cache.configs", cfgs.len() as u64);
+    let per = (NSYM * NSYM) as u64;
+    common::par_for(cfgs.len() as u64 * per, 1, |i| {
+        let ci = (i / per) as usize;
+        let p = (i % per) as usize;
+        run_cache_subtree(ctx, &cfgs[ci], ci as u64, p / NSYM, p % NSYM, max_len, "");
+    });
+}
+
+fn replay_cache(ctx: &Ctx, f: &BTreeMap<String, String>) -> String {
+    let size: usize = f.get("size").and_then(|s| s.parse().ok()).unwrap_or(1);
+    let pattern: Vec<usize> = f
+        .get("pat")
+        .map(|p| p.chars().filter_map(|c| c.to_digit(10).map(|d| d as usize)).collect())
+        .unwrap_or_else(|| vec![0; NADDR]);
+    let cfg = CacheCfg {
+        size,
+        pattern,
+        cutoff: f.get("cutoff").and_then(|s| s.parse().ok()).unwrap_or(10),
+        unit_ns: f.get("unit").and_then(|s| s.parse().ok()).unwrap_or(1_000_000_000),
+    };
+    if cfg.pattern.len() != NADDR {
+        return "bad pattern".into();
+    }
+    let mut cache = Cache::new(cfg.size);
+    let Some(addrs) = realise(&cfg.pattern, |a| cache.slot(a), (0..4096).map(pool_addr)) else {
+        return "pattern not realisable".into();
+    };
+    let slots: Vec<Option<usize>> = addrs.iter().map(|a| cache.slot(a)).collect();
+    let base = Instant::now();
+    let mut hist: Vec<(usize, u64)> = Vec::new();
+    let mut obs = Vec::new();
+    for item in f.get("seq").map(|s| s.as_str()).unwrap_or("").split(',').filter(|s| !s.is_empty()) {
+        let Some((a, d)) = item.split_once('+') else {
+            return format!("bad item {item}");
+        };
+        let a = (a.as_bytes()[0] - b'a') as usize;
+        let d: u64 = d.parse().unwrap_or(0);
+        let t = hist.last().map(|h| h.1).unwrap_or(0) + d;
+        hist.push((a, t));
+        let got = cache.is_allowed(
+            addrs[a],
+            base + Duration::from_nanos(t * cfg.unit_ns),
+            Duration::from_nanos(cfg.cutoff * cfg.unit_ns),
+        );
+        let want = want_cache(cfg.size, cfg.cutoff, &slots, &hist);
+        match (want, got) {
+            (Want::MustLimit, true) => ctx.violation("C20:not-limited-within-cutoff", "replay", "replay"),
+            (Want::MustAllow, false) => ctx.violation("C20:limited-without-recent-own-request", "replay", "replay"),
+            _ => {}
+        }
+        obs.push(format!("{item}:{}(ref {want:?})", if got { "allowed" } else { "limited" }));
+    }
+    // slots are reported as a sharing pattern (the numeric slot depends on the hash seed)
+    let shape: Vec<usize> = slots.iter().map(|s| slots.iter().position(|x| x == s).unwrap()).collect();
+    format!("sharing={shape:?} {}", obs.join(" "))
+}
+
+// ---------------------------------------------------------------------------------
+// Part B: the server
+// ---------------------------------------------------------------------------------
+
+const CLIENTS: [&str; 5] = ["X1", "X2", "X3", "Y", "Z"];
+const SRV_DGRAMS: [&str; 5] = ["v4.plain.m3", "v4.nts.ok.m3", "v4.nts.badtag.m3", "v4.plain.m4", "garbage-ff48"];
+
+#[derive(Clone)]
+struct SrvCfg {
+    policy: Policy,
+    pattern: Vec<usize>,
+}
+
+impl SrvCfg {
+    fn trace(&self) -> String {
+        format!(
+            "srv;da={};aa={};cs={};co={};pat={}",
+            if self.policy.deny_act == Act::Ignore { 'i' } else { 'd' },
+            if self.policy.allow_act == Act::Ignore { 'i' } else { 'd' },
+            self.policy.cache_size,
+            self.policy.cutoff.as_secs(),
+            self.pattern.iter().map(|b| b.to_string()).collect::<String>(),
+        )
+    }
+}
+
+fn srv_policy(da: Act, aa: Act, cache_size: usize, cutoff_s: u64) -> Policy {
+    Policy {
+        deny_name: "c20-deny",
+        deny: vec![("10.66.0.0".parse().unwrap(), 16)],
+        deny_act: da,
+        allow_name: "c20-allow",
+        allow: vec![
+            ("10.1.0.0".parse().unwrap(), 16),
+            ("10.66.0.0".parse().unwrap(), 16),
+            ("2001:db8:1:2::".parse().unwrap(), 64),
+        ],
+        allow_act: aa,
+        require_nts: None,
+        versions: 0b010,
+        cache_size,
+        cutoff: Duration::from_secs(cutoff_s),
+    }
+}
+
+fn srv_cfgs(thorough: bool) -> Vec<SrvCfg> {
+    let mut v = Vec::new();
+    let sizes: &[usize] = if thorough { &[0, 1, 2, 3, 32] } else { &[0, 1, 2, 32] };
+    for &size in sizes {
+        for pattern in partitions(3, if size >= 3 { 3 } else { size }) {
+            for cutoff in [0u64, 3600] {
+                for da in [Act::Ignore, Act::Deny] {
+                    for aa in [Act::Ignore, Act::Deny] {
+                        v.push(SrvCfg {
+                            policy: srv_policy(da, aa, size, cutoff),
+                            pattern: pattern.clone(),
+                        });
+                    }
+                }
+            }
+        }
+    }
+    v
+}
+
+/// Pick X1..X3 (passing), Y (deny-listed) and Z (not on the allow list) for THIS server
+/// instance: X's realise the sharing pattern; Y and Z hash into X1's slot.
+fn srv_clients(cfg: &SrvCfg, server: &crate::server::Server<c15::MockClock>) -> Option<[IpAddr; 5]> {
+    let xs_pool = (0u32..65536).map(|i| {
+        if i % 2 == 0 {
+            IpAddr::V4(Ipv4Addr::new(10, 1, (i >> 9) as u8, (i >> 1) as u8))
+        } else {
+            IpAddr::V6(Ipv6Addr::new(0x2001, 0xdb8, 1, 2, 0, 0, (i >> 17) as u16, (i >> 1) as u16))
+        }
+    });
+    let xs = realise(&cfg.pattern, |a| server_slot(server, a), xs_pool)?;
+    let s1 = server_slot(server, &xs[0]);
+    let y = (0u32..65536)
+        .map(|i| IpAddr::V4(Ipv4Addr::new(10, 66, (i >> 8) as u8, i as u8)))
+        .find(|a| server_slot(server, a) == s1)?;
+    let z = (0u32..65536)
+        .map(|i| IpAddr::V4(Ipv4Addr::new(192, 0, (i >> 8) as u8, i as u8)))
+        .find(|a| server_slot(server, a) == s1)?;
+    Some([xs[0], xs[1], xs[2], y, z])
+}
+
+struct SrvStep {
+    ans: Ans,
+    regs: Vec<c15::Reg>,
+    want: Want,
+    passes: bool,
+}
+
+/// Run one sequence on a fresh server; returns per step observation + reference.
+fn run_srv_seq(cfg: &SrvCfg, keys: &Keys, dgrams: &[Dgram], seq: &[(usize, usize)]) -> Result<(Vec<SrvStep>, Vec<usize>), String> {
+    let (mut server, _clock) = cfg.policy.server(keys);
+    let clients = srv_clients(cfg, &server).ok_or_else(|| "machinery: could not pick clients for the slot pattern".to_string())?;
+    let slots: Vec<Option<usize>> = clients.iter().map(|a| server_slot(&server, a)).collect();
+    let shape: Vec<usize> = slots.iter().map(|s| slots.iter().position(|x| x == s).unwrap()).collect();
+    let mut buf = vec![0u8; 1024];
+    let mut out = Vec::new();
+    // history of list-passing requests only: (client index)
+    let mut passed: Vec<usize> = Vec::new();
+    for (c, d) in seq {
+        let addr = clients[*c];
+        let dg = &dgrams[*d];
+        let o = c15::run_handle(&mut server, addr, &dg.bytes, &mut buf);
+        if let Some(p) = o.panic {
+            return Err(format!("panic: {p}"));
+        }
+        let passes = *c < 3; // by construction of the lists: X1..X3 pass, Y is denied, Z is unlisted
+        let want = if !passes {
+            Want::MustAllow // never passed the lists -> can never be rate limited
+        } else {
+            let w = if cfg.policy.cache_size == 0 || cfg.policy.cutoff == Duration::ZERO {
+                Want::MustAllow
+            } else {
+                match passed.iter().rposition(|x| x == c) {
+                    None => Want::MustAllow,
+                    Some(j) => {
+                        if passed[j + 1..].iter().any(|x| x != c && slots[*x] == slots[*c]) {
+                            Want::Unspecified
+                        } else {
+                            Want::MustLimit
+                        }
+                    }
+                }
+            };
+            passed.push(*c);
+            w
+        };
+        out.push(SrvStep {
+            ans: c15::classify(o.resp.as_deref(), dg.version).ans,
+            regs: o.regs,
+            want,
+            passes,
+        });
+    }
+    Ok((out, shape))
+}
+
+fn srv_seq_text(seq: &[(usize, usize)]) -> String {
+    seq.iter()
+        .map(|(c, d)| format!("{}:{}", CLIENTS[*c], SRV_DGRAMS[*d]))
+        .collect::<Vec<_>>()
+        .join(",")
+}
+
+fn judge_srv(ctx: &Ctx, cfg: &SrvCfg, seq: &[(usize, usize)], steps: &[SrvStep], tally: &mut BTreeMap<String, u64>) {
+    let trace = || format!("{};seq={}", cfg.trace(), srv_seq_text(seq));
+    for (i, st) in steps.iter().enumerate() {
+        let (c, d) = seq[i];
+        let limited = st.regs.iter().any(|r| r.2 == ServerReason::RateLimit);
+        let key = format!(
+            "srv.{}.{}",
+            match st.want {
+                Want::MustLimit => "must-limit",
+                Want::MustAllow => if st.passes { "must-allow" } else { "not-listed" },
+                Want::Unspecified => "unspecified",
+            },
+            if limited { "limited" } else { st.ans.tag() }
+        );
+        *tally.entry(key).or_insert(0) += 1;
+        match st.want {
+            Want::MustLimit => {
+                if !limited || st.ans != Ans::None {
+                    ctx.violation(
+                        "C20:server-not-limited-within-cutoff",
+                        format!(
+                            "step {i}: {} repeats within the cutoff (no other passing client used its slot) but got {} / {:?}",
+                            CLIENTS[c], st.ans.tag(), st.regs
+                        ),
+                        trace(),
+                    );
+                }
+            }
+            Want::MustAllow => {
+                if limited {
+                    ctx.violation(
+                        if cfg.policy.cache_size == 0 {
+                            "C20:size0-limited"
+                        } else if !st.passes {
+                            "C20:unlisted-client-rate-limited"
+                        } else {
+                            "C20:server-limited-without-recent-own-request"
+                        },
+                        format!("step {i}: {} was rate limited ({:?}) without an own list-passing request within the cutoff", CLIENTS[c], st.regs),
+                        trace(),
+                    );
+                } else if st.passes && (d == 0 || d == 1) && st.ans != Ans::Time {
+                    // a passing, not rate-limited client with a valid request receives time
+                    ctx.violation(
+                        "C20:unlimited-client-no-time",
+                        format!("step {i}: {} is not rate limited, sent {} but got {} / {:?}", CLIENTS[c], SRV_DGRAMS[d], st.ans.tag(), st.regs),
+                        trace(),
+                    );
+                }
+            }
+            Want::Unspecified => {}
+        }
+    }
+}
+
+fn part_b(ctx: &Ctx, keys: &Keys, max_len: usize) {
+    let alpha = c15::alphabet(keys);
+    let dgrams: Vec<Dgram> = SRV_DGRAMS
+        .iter()
+        .map(|n| alpha.iter().find(|d| d.name == *n).expect("datagram name").clone())
+        .collect();
+    let cfgs = srv_cfgs(!ctx.quick());
+    ctx.set("srv.configs", cfgs.len() as u64);
+    let nsym = CLIENTS.len() * SRV_DGRAMS.len();
+    // all sequences of exactly max_len (every shorter sequence is a prefix of one of them
+    // and every step of a sequence is judged, so prefixes are covered)
+    let nseq = common::pow(nsym, max_len);
+    struct Local<'a> {
+        ctx: &'a Ctx,
+        tally: BTreeMap<String, u64>,
+        steps: u64,
+        seqs: u64,
+        hashes: Vec<u64>,
+    }
+    impl Drop for Local<'_> {
+        fn drop(&mut self) {
+            for (k, n) in &self.tally {
+                self.ctx.add(k, *n);
+            }
+            self.ctx.add("transitions", self.steps);
+            self.ctx.add("evaluations", self.steps);
+            self.ctx.add("srv.sequences", self.seqs);
+            self.ctx.add("states", self.seqs);
+            self.ctx.distinct_many(std::mem::take(&mut self.hashes));
+        }
+    }
+    common::par_for_with(
+        cfgs.len() as u64 * nseq,
+        512,
+        || Local {
+            ctx,
+            tally: BTreeMap::new(),
+            steps: 0,
+            seqs: 0,
+            hashes: Vec::new(),
+        },
+        |loc, i| {
+            let ci = (i / nseq) as usize;
+            let word = common::word_of(i % nseq, nsym, max_len);
+            let seq: Vec<(usize, usize)> = word.iter().map(|s| (s / SRV_DGRAMS.len(), s % SRV_DGRAMS.len())).collect();
+            let cfg = &cfgs[ci];
+            match run_srv_seq(cfg, keys, &dgrams, &seq) {
+                Ok((steps, _shape)) => {
+                    judge_srv(ctx, cfg, &seq, &steps, &mut loc.tally);
+                    loc.steps += seq.len() as u64;
+                    loc.seqs += 1;
+                    if steps.iter().any(|s| s.want != Want::MustAllow) {
+                        loc.hashes.push(common::hash_of(&("srv", ci, &word)));
+                    }
+                    if i % 250_007 == 11 {
+                        ctx.sample(format!(
+                            "{};seq={} -> {}",
+                            cfg.trace(),
+                            srv_seq_text(&seq),
+                            steps
+                                .iter()
+                                .map(|s| if s.regs.iter().any(|r| r.2 == ServerReason::RateLimit) { "limited" } else { s.ans.tag() })
+                                .collect::<Vec<_>>()
+                                .join(",")
+                        ));
+                    }
+                }
+                Err(e) => {
+                    if e.starts_with("machinery") {
+                        ctx.cap_hit(&e);
+                    } else {
+                        ctx.violation("C20:server-panic", e, format!("{};seq={}", cfg.trace(), srv_seq_text(&seq)));
+                    }
+                }
+            }
+        },
+    );
+}
+
+fn replay_srv(ctx: &Ctx, f: &BTreeMap<String, String>) -> String {
+    let keys = Keys::new();
+    let act = |k: &str| if f.get(k).map(|s| s.as_str()) == Some("d") { Act::Deny } else { Act::Ignore };
+    let cfg = SrvCfg {
+        policy: srv_policy(
+            act("da"),
+            act("aa"),
+            f.get("cs").and_then(|s| s.parse().ok()).unwrap_or(1),
+            f.get("co").and_then(|s| s.parse().ok()).unwrap_or(3600),
+        ),
+        pattern: f
+            .get("pat")
+            .map(|p| p.chars().filter_map(|c| c.to_digit(10).map(|d| d as usize)).collect())
+            .unwrap_or_else(|| vec![0, 0, 0]),
+    };
+    if cfg.pattern.len() != 3 {
+        return "bad pattern".into();
+    }
+    let mut seq = Vec::new();
+    for item in f.get("seq").map(|s| s.as_str()).unwrap_or("").split(',').filter(|s| !s.is_empty()) {
+        let Some((c, d)) = item.split_once(':') else {
+            return format!("bad item {item}");
+        };
+        let (Some(c), Some(d)) = (CLIENTS.iter().position(|x| *x == c), SRV_DGRAMS.iter().position(|x| *x == d)) else {
+            return format!("unknown item {item}");
+        };
+        seq.push((c, d));
+    }
+    let alpha = c15::alphabet(&keys);
+    let dgrams: Vec<Dgram> = SRV_DGRAMS
+        .iter()
+        .map(|n| alpha.iter().find(|d| d.name == *n).expect("datagram name").clone())
+        .collect();
+    match run_srv_seq(&cfg, &keys, &dgrams, &seq) {
+        Ok((steps, shape)) => {
+            let mut tally = BTreeMap::new();
+            judge_srv(ctx, &cfg, &seq, &steps, &mut tally);
+            format!(
+                "sharing(X1,X2,X3,Y,Z)={shape:?} {}",
+                steps
+                    .iter()
+                    .enumerate()
+                    .map(|(i, s)| format!("{}:{}->{}{:?}(ref {:?})", CLIENTS[seq[i].0], SRV_DGRAMS[seq[i].1], s.ans.tag(), s.regs, s.want))
+                    .collect::<Vec<_>>()
+                    .join(" ")
+            )
+        }
+        Err(e) => e,
+    }
+}
+
+fn replay(ctx: &Ctx, trace: &str) -> String {
+    let f = c15::parse_fields(trace);
+    if trace.starts_with("srv") {
+        replay_srv(ctx, &f)
+    } else {
+        replay_cache(ctx, &f)
+    }
+}
+
+#[test]
+fn check() {
+    let ctx = Ctx::new("C20");
+    if let Some(t) = common::replay_trace() {
+        let a = replay(&ctx, &t);
+        let b = replay(&ctx, &t);
+        common::report_replay("C20", &a, &b, ctx.violation_count() > 0);
+        return;
+    }
+    let (la, lb) = if ctx.quick() { (5, 3) } else { (7, 4) };
+    ctx.rule(&format!(
+        "Part A: every sequence of length <= {la} over (address in {{a,b,c}}) x (delta-t in {{0,9,10,11}}) applied to the real \
+         TimestampedCache (depth-first on forks of the cache), for cache size 0..3 x cutoff {{0,10}} x every set partition of the \
+         three addresses into <= size slots (addresses are picked by their observed slot in each cache instance){}. \
+         Part B: every sequence of length <= {lb} over 5 clients (3 passing the lists, 1 deny-listed, 1 not on the allow list; the \
+         latter two hash into the first passing client's slot) x 5 datagrams (plain, NTS, undecryptable NTS, non-client mode, \
+         garbage) on Server::handle, for cache size {{0,1,2,32}} (thorough: + 3) x cutoff {{0, 1 h}} x every sharing pattern x deny/allow actions. \
+         Distinct & non-trivial = a sequence with at least one step that has an own previous request (Part A: counted up to length 4 \
+         only) / at least one step whose reference is not 'must allow' (Part B).",
+        if ctx.quick() { "" } else { " x time unit {1 s, 1 ns}" }
+    ));
+    ctx.assume("arrival instants are non-decreasing (std::time::Instant is monotonic)");
+    ctx.assume("a rate-limited request is itself a request that passed the access lists (it refreshes the client's own time stamp)");
+    ctx.assume("when another address used the slot in between, the statement allows both outcomes; those cases are counted, not judged");
+    ctx.assume("Server level: real time between two handle calls of one sequence is >= 0 and < 1 h");
+    ctx.assume("addresses that do not pass the access lists do not 'use' a cache slot");
+    let keys = Keys::new();
+    part_a(&ctx, la);
+    ctx.set("cache.max_len", la as u64);
+    part_b(&ctx, &keys, lb);
+    ctx.set("srv.max_len", lb as u64);
+    ctx.exhaustive(true);
+    ctx.finish();
+}
